@@ -6,8 +6,8 @@ repository code can decide it (DESIGN, C04 "not decided").  Proved here, over th
                    engine parameter of the same meaning, conics are removed, the result is simplified (engine failure
                    there falls back to the unsimplified outline, as documented)
   dash arrays      "none" -> no dashes, odd-length lists are doubled, even ones kept, offset passed unchanged
-  bookkeeping      SVG._stroke: stroke piece takes the stroke paint and opacity*stroke_opacity, fill piece keeps the fill
-                   and opacity*fill_opacity, both end with fill_opacity 1 and no stroke properties, stroke drawn above fill,
+  bookkeeping      SVG._stroke: stroke piece takes the stroke paint and opacity*clamp(stroke_opacity), fill piece keeps the fill
+                   and opacity*clamp(fill_opacity), both end with fill_opacity 1 and no stroke properties, stroke drawn above fill,
                    ids cleared exactly when two pieces are returned
   tolerance        positive, 0.1% of the smaller viewBox side, 0.1 without a viewBox
 """
@@ -23,6 +23,7 @@ from picosvg.svg_types import SVGPath, SVGShape
 
 from pyvc import pathdata
 from pyvc.registry import obligation
+from pyvc.sym import smax, smin
 from pyvc.sym import And, Not, Or
 
 from . import fake_pathops
@@ -153,7 +154,9 @@ def bookkeeping(H):
     stroke = out[-1]
     H.prove(stroke is not shape, "bookkeeping.stroke_piece_is_a_new_shape")
     H.prove(stroke.fill == "blue", "bookkeeping.stroke_piece_painted_with_stroke_paint")
-    H.prove(H.close(stroke.opacity, opacity * so), "bookkeeping.stroke_piece_opacity_is_opacity_times_stroke_opacity")
+    # a renderer clamps every opacity to [0, 1] before using it (SVG 1.1 11.x "values outside the range 0.0 - 1.0 are clamped")
+    clamp = lambda v: smax(0, smin(1, v)) if H.mode == "sym" else max(0.0, min(1.0, v))
+    H.prove(H.close(stroke.opacity, opacity * clamp(so)), "bookkeeping.stroke_piece_opacity_is_opacity_times_clamped_stroke_opacity")
     H.prove(H.close(stroke.fill_opacity, 1.0), "bookkeeping.stroke_piece_fill_opacity_reset")
     H.prove(stroke.fill_rule == "nonzero" and stroke.clip_rule == "nonzero", "bookkeeping.stroke_outline_is_nonzero")
     got = [(c, tuple(x)) for c, x in H.call(SVGPath.__iter__, stroke)]
@@ -164,7 +167,7 @@ def bookkeeping(H):
     if fill_paints:
         fill = out[0]
         H.prove(fill is shape and fill.fill == "red" and fill.fill_rule == "evenodd", "bookkeeping.fill_piece_first_so_stroke_is_drawn_above_it")
-        H.prove(H.close(fill.opacity, opacity * fo), "bookkeeping.fill_piece_opacity_is_opacity_times_fill_opacity")
+        H.prove(H.close(fill.opacity, opacity * clamp(fo)), "bookkeeping.fill_piece_opacity_is_opacity_times_clamped_fill_opacity")
         H.prove(H.close(fill.fill_opacity, 1.0), "bookkeeping.fill_piece_fill_opacity_reset")
         H.prove(fill.id == "" and stroke.id == "", "bookkeeping.ids_cleared_when_shape_is_split")
     else:
